@@ -58,7 +58,7 @@ func initC11() {
 		components:  withExtra(commonComponents, "scripted NBT peer", "harness code with an independent RFC 1002 section 4.3.1 framer/deframer (never the library's own)"),
 		assumptions: []string{
 			"the simulated stream follows the documented net.Conn contract (short reads, io.EOF after FIN once drained, reset error after RST, ErrClosed on local close, partial write + error); kernel specifics are not modelled",
-			"the cut enumeration is exhaustive only for the 40 listed small frame sequences (wire size <= 96 bytes): every byte offset x {FIN, RST, local close} x {whole, byte-by-byte, seeded} segmentation x {peer->SUT, SUT->SUT}; large frames are sampled",
+			"every payload length 0..131071 and the 16 lengths after it is sent once through a pair of real transports under a seeded segmentation (lenenum); the cut enumeration is exhaustive only for the 40 listed small frame sequences (wire size <= 96 bytes): every byte offset x {FIN, RST, local close} x {whole, byte-by-byte, seeded} segmentation x {peer->SUT, SUT->SUT}; large frames are sampled",
 			"no race-detector build for C11 (its tasks share nothing but the transport under test)",
 		},
 		rule: "each run: one real NBTTransport (via smb_v10/transport.NewTransport) or a pair of them over a simulated TCP stream; 1-6 frames with lengths biased to 0,1..5,0xFFFF,0x10000,0x10001,0x1FFFE,0x1FFFF,0x20000.. and random up to 200000; " +
@@ -67,6 +67,7 @@ func initC11() {
 			"non-trivial = every run (each moves at least one frame or exercises a cut); distinct = distinct interleaving signature",
 		scenarios: []fixedScenario{
 			{name: "cutenum", enum: true, runs: func(tier string) int64 { return 0 }},
+			{name: "lenenum", enum: true, runs: func(tier string) int64 { return 0 }},
 		},
 	}
 }
@@ -84,7 +85,7 @@ func initC18() {
 		assumptions: []string{
 			"simulated sockets follow the documented net contracts (deadline errors, ErrClosed on close-while-blocked, datagram truncation, UDP drop/dup/reorder, stream FIN/RST); kernel specifics (ICMP errors, SO_REUSEADDR) are not modelled",
 			"'promptly' is taken as: Stop/Close returns and every SUT goroutine has exited within 3 s (NBNS) / 2 s (LLMNR) of simulated time, measured from the call and judged only over time that passed with every task blocked (the pinned tree needs 0 s; a bounded drain of handlers fits; waiting out a 5 s or 30 s I/O timeout does not)",
-			"the only ill-formed input injected is a datagram announcing more questions than it carries (as a disturbance between well-formed requests; how the server treats it is not judged: decoder totality is C07)",
+			"ill-formed NBNS datagrams (question count larger than the content, runts shorter than a header, requests cut inside the question) are injected only as a disturbance between well-formed requests; how the server treats them is not judged (decoder totality is C07), only that they leave nothing behind",
 			"seeded sampling of schedules, fault sequences and stop times; the 16-opcode routing table is enumerated exhaustively (3 transports x 16 opcodes x 2 record dialects); Stop/Close is additionally placed at every statement boundary (k = 0..899) of 5 systems with 1 or 2 requests in flight under the otherwise boring schedule (stopenum)",
 		},
 		rule: "each run: one system (nbtns.Server | nbtns.UDPServer+TCPServer | llmnr.Server | llmnr.Client vs harness responders | llmnr.Client+Server | nbtns.NameChallenger) started through its real constructors on simulated hosts; " +
